@@ -204,11 +204,23 @@ func runC03(p *core.Program, r *core.Report) {
 	// who writes the heap array and who re-sifts: only the functions the rules are phrased over
 	{
 		writers := map[string]bool{"Push": true, "Pop": true, "Delete": true, "Clear": true, "Meld": true, "NewHeap": true, "FromSlice": true}
+		slotWriters := map[string]bool{"Pop": true, "Delete": true}
 		sifters := map[string]bool{"Push": true, "Pop": true, "Delete": true, "Convert": true, "Sort": true, "moveDown": true, "moveUp": true, "FromSlice": true}
 		for _, f := range all {
 			fname := p.FuncName(f)
 			for _, st := range fieldStores([]*ssa.Function{f}, "Heap", "data") {
 				c.ob("AG1", fname, "writes the heap array", p.InstrPos(st), writers[f.Name()], "h.data is replaced by a function the conservation rules do not cover")
+			}
+			// single slots: only the removal paths overwrite an element in place (the
+			// victim's slot receives the last element)
+			for _, in := range path.Instrs(f) {
+				st, ok := in.(*ssa.Store)
+				if !ok {
+					continue
+				}
+				if ia, ok := st.Addr.(*ssa.IndexAddr); ok && isLoadOfField(ia.X, "Heap", "data") {
+					c.ob("AG1", fname, "overwrites a slot of the heap array", p.InstrPos(st), slotWriters[f.Name()], "an element of h.data is overwritten by a function the conservation rules do not cover: the heap no longer holds exactly what was pushed")
+				}
 			}
 			for _, in := range path.Instrs(f) {
 				call, ok := in.(ssa.CallInstruction)
